@@ -452,6 +452,32 @@ def main(out_path):
     L.append("  end.")
     L.append("")
 
+    # --- unpack_package: shape facts
+    up = fn_body(storage, "unpack_package")
+    i_loop = up.find("for entry in tar.entries()")
+    i_lock = up.find("create_unpack_lock(unpack_dir)")
+    i_rm = up.find("fs::remove_dir_all(unpack_dir)")
+    i_prefix = up.find("entry_path.starts_with(prefix)")
+    i_unpack = up.find(".unpack_in(parent)")
+    if min(i_loop, i_lock, i_rm, i_prefix, i_unpack) < 0:
+        raise TranslateError("unpack_package no longer has the expected steps (remove stale dir, entry loop, prefix check, unpack_in, marker)")
+    if not (i_rm < i_loop < i_prefix < i_unpack < i_lock):
+        raise TranslateError("unpack_package: the order stale-dir removal < entry loop (prefix check < unpack_in) < marker creation changed")
+    loop_ob = up.find("{", i_loop)
+    loop_cb = match_brace(up, loop_ob)
+    if not (loop_cb < i_lock):
+        raise TranslateError("unpack_package: the completion marker is no longer written after the entry loop")
+    skips = bool(re.search(r"file_name\(\)\s*\.map_or\(\s*false\s*,\s*\|\w+\|\s*\w+\s*==\s*CARGO_OK_FILE\s*\)\s*\{\s*continue;", up[loop_ob:i_unpack]))
+    L.append("(* unpack_package: stale directory removed first, prefix check before unpack_in, marker after the loop *)")
+    L.append("Definition UNPACK_MARKER_AFTER_LOOP : bool := true.")
+    L.append(f"Definition UNPACK_SKIPS_MARKER_ENTRIES : bool := {'true' if skips else 'false'}.")
+    links = bool(re.search(r"entry_type\.is_symlink\(\)\s*\|\|\s*entry_type\.is_hard_link\(\)\s*\{\s*continue;", up[loop_ob:i_unpack]))
+    L.append(f"Definition UNPACK_SKIPS_LINK_ENTRIES : bool := {'true' if links else 'false'}.")
+    fio = fn_body(storage, "fetch_is_ok")
+    if not re.search(r"read_to_string\(fetch\.join\(CARGO_OK_FILE\)\)", fio) or "ok == CARGO_OK_BODY" not in fio:
+        raise TranslateError("fetch_is_ok no longer compares the marker file with CARGO_OK_BODY")
+    L.append("")
+
     # --- storage constants
     m = re.search(r"let\s+max_end_date\s*=\s*today\s*\+\s*chrono::Months::new\((\d+)\)", storage)
     if not m:
